@@ -1,6 +1,7 @@
 import Model.Broker
 import Proofs.BrokerOut
 import Proofs.BrokerOutKeep
+import Proofs.BrokerOldAlloc
 import Props.C18
 /-
   Props/C08.lean — property C08: an accepted QoS ≥ 1 message for a persistent subscriber is recorded
@@ -8,11 +9,12 @@ import Props.C18
   flagged dup, PUBREL after PUBREC) — wherever the connection was lost; offline messages are queued up
   to the capacity; CONNACK session-present ⇔ stored state resumed; clean session discards it.
 
-  One caveat is part of the statements (it is how the code behaves, `SavePacket` overwrites):
-  a stored packet also disappears when a *new delivery reuses its packet id* — the id counter has
-  wrapped around (65535 allocations) while the old id is still unacknowledged.  The frame theorems
-  therefore read "kept, or overwritten by a fresh PUBLISH with the same id" (`Kept`), and "kept" under
-  the hypothesis that the id is not the session's next id (`*_keeps_fresh`).
+  Packet ids: the dequeuer hands a new delivery the next packet id that no packet of the session's
+  outgoing store uses (`MemorySession.freshID` = the broker's `Client.nextID`; MQTT 3.1.1 §2.3.1), so a
+  delivery never overwrites a record (`fresh_id_unused`) and the frame theorems read plainly "kept"
+  (`Kept`).  Before the repair the id was the bare wrapping counter and a delivery could overwrite an
+  unacknowledged record after a wrap-around: `old_allocator_overwrites` (old allocator kept in
+  Proofs/BrokerOldAlloc.lean) against `id_reuse_repaired` on the same state.
 -/
 namespace C08
 open BState BrokerB3
@@ -24,12 +26,12 @@ def Holds (s : BState) (cid : ClientId) (k : UInt16) (p : Packet) : Prop :=
 /-! ### recorded before transmitted -/
 
 /-- The model accepts the transmission of a QoS>0 delivery only into a state in which the packet is
-    recorded: it carries the session's next id, and afterwards the outgoing store of the session
-    holds exactly this packet under that id, as its newest entry. -/
+    recorded: it carries the session's next unused id (`freshID`), and afterwards the outgoing store of
+    the session holds exactly this packet under that id, as its newest entry. -/
 theorem saved_before_sent {s : BState} {c : ConnId} {x : BConn} {b : BSess} {m : Message}
     {id : UInt16} {s' : BState} (hx : s.conn? c = some x) (hb : s.sessOf c = some b)
     (h : acceptDelivery s c x b m id = some s') (hq : m.qos ≠ 0) :
-    id = b.sess.nextID.1 ∧
+    id = b.sess.freshID.1 ∧
     ∃ b', s'.sessOf c = some b' ∧
       b'.sess.lookupPacket .outgoing id = some (.publish m false id) ∧
       b'.sess.outgoing.entries =
@@ -38,11 +40,37 @@ theorem saved_before_sent {s : BState} {c : ConnId} {x : BConn} {b : BSess} {m :
   obtain ⟨e1, _, _⟩ := hp.frame
   rcases hf with ⟨hq', _, _⟩ | ⟨_, hid, rfl⟩
   · exact absurd hq' hq
-  · refine ⟨by rw [← hid, e1], _, sessOf_upd_same _ hx hb (retake_sref _), ?_, ?_⟩
-    · show ((bq.sess.nextID.2).savePacket .outgoing (.publish m false id)).outgoing.lookup id = _
+  · refine ⟨by rw [← hid.2, e1], _, sessOf_upd_same _ hx hb (retake_sref _), ?_, ?_⟩
+    · show ((bq.sess.freshID.2).savePacket .outgoing (.publish m false id)).outgoing.lookup id = _
       rw [savePacket_outgoing, PacketStore.lookup_save _ _ id id rfl]
       simp
-    · simp only [savePacket_outgoing, nextID_outgoing, save_publish_entries, e1]
+    · simp only [savePacket_outgoing, MemorySession.freshID_outgoing, save_publish_entries, e1]
+
+/-- The packet id of a fresh QoS>0 delivery is not in use: it is not 0 and it is the key of no packet of
+    the session's outgoing store (MQTT 3.1.1 §2.3.1) — so saving the delivery removes nothing: the store
+    afterwards is the old store with the new PUBLISH appended.  No hypothesis on the state: when every id
+    is in use the model accepts no delivery at all (the real dequeuer dies with `ErrPacketIDsExhausted`;
+    by `MemorySession.freshID_ne_zero_of_lt` that needs 65535 stored packets). -/
+theorem fresh_id_unused {s : BState} {c : ConnId} {x : BConn} {b : BSess} {m : Message}
+    {id : UInt16} {s' : BState} (hx : s.conn? c = some x) (hb : s.sessOf c = some b)
+    (h : acceptDelivery s c x b m id = some s') (hq : m.qos ≠ 0) :
+    id ≠ 0 ∧ b.sess.lookupPacket .outgoing id = none ∧ id ∉ b.sess.outgoing.entries.map (·.1) ∧
+    ∃ b', s'.sessOf c = some b' ∧
+      b'.sess.outgoing.entries = b.sess.outgoing.entries ++ [(id, .publish m false id)] := by
+  obtain ⟨_, bq, hp, hf⟩ := acceptDelivery_cases h
+  obtain ⟨e1, _, _⟩ := hp.frame
+  obtain ⟨hid, b', hb', _, he⟩ := saved_before_sent hx hb h hq
+  rcases hf with ⟨hq', _, _⟩ | ⟨_, ⟨hz, hid'⟩, _⟩
+  · exact absurd hq' hq
+  · rw [e1] at hz hid'
+    have hl : b.sess.outgoing.lookup id = none := by
+      rw [← hid']; exact MemorySession.freshID_unused _ hz
+    have hn : id ∉ b.sess.outgoing.entries.map (·.1) := by
+      intro hmem
+      obtain ⟨e, he', hk⟩ := List.mem_map.1 hmem
+      exact PacketStore.not_mem_of_lookup_none hl (k := e.1) (p := e.2) he' hk
+    refine ⟨by rw [← hid']; exact hz, hl, hn, b', hb', ?_⟩
+    rw [he, erase_eq_self _ _ hn]
 
 /-- the same at the level of observations: a non-dup PUBLISH that is not pending processor / acker
     output is accepted only together with its record -/
@@ -66,8 +94,8 @@ theorem sent_implies_saved {s : BState} {c : ConnId} {m : Message} {id : UInt16}
 
 /-- … and when the transport fails that write: in every successor the packet is STILL recorded in the
     stored session and the connection is closed — so the next resume retransmits it
-    (`resend_on_resume`).  The dying dequeuer may deliver one more message; it gets the following
-    id, which differs (`nextID_twice_ne`). -/
+    (`resend_on_resume`).  The dying dequeuer may deliver one more message; it gets an id the store
+    does not use, so the record stays (`Take1.kept`). -/
 theorem sendFail_still_saved {s : BState} {c : ConnId} {m : Message} {id : UInt16} {s'' : BState}
     {x : BConn} {cid : ClientId}
     (h : s'' ∈ observe s (.sendFail c (.publish m false id))) (hq : m.qos ≠ 0)
@@ -96,17 +124,15 @@ theorem sendFail_still_saved {s : BState} {c : ConnId} {m : Message} {id : UInt1
         · exact absurd hq' hq
         · -- the stored session right after the delivery
           have hb1 : Assoc.get (finishQ12 s c x bq m id).stored cid =
-              some { bq with sess := (bq.sess.nextID.2).savePacket .outgoing (.publish m false id) } := by
+              some { bq with sess := (bq.sess.freshID.2).savePacket .outgoing (.publish m false id) } := by
             unfold finishQ12
             rw [setConn_stored, get_stored_setSessOf _ hx, if_pos hs]
           obtain ⟨b2, hb2, ht⟩ := kill_grow hkill cid _ hb1
           refine ⟨⟨b2, ?_, ?_⟩, ?_⟩
           · rw [updConn_stored]; exact hb2
-          · refine ht.kept ?_ ?_
-            · simp only [savePacket_outgoing, nextID_outgoing, save_publish_entries]
-              exact List.mem_append_right _ (List.mem_singleton.2 rfl)
-            · rw [← hid]
-              exact (nextID_twice_ne bq.sess).symm
+          · refine ht.kept ?_
+            simp only [savePacket_outgoing, MemorySession.freshID_outgoing, save_publish_entries]
+            exact List.mem_append_right _ (List.mem_singleton.2 rfl)
           · intro x'' hx''
             rw [conn?_updConn, if_pos rfl] at hx''
             cases h2 : s2.conn? c with
@@ -122,8 +148,7 @@ theorem sendFail_still_saved {s : BState} {c : ConnId} {m : Message} {id : UInt1
 /-! ### kept until acknowledged: where the outgoing store of a stored session can shrink -/
 
 /-- every observation (a delivery, the write of any packet, a failing write with the death of the
-    connection, `closed`, a backend call): every entry of every stored session is kept (or its id is
-    reused by a fresh delivery) -/
+    connection, `closed`, a backend call): every entry of every stored session is kept -/
 theorem observe_keeps {s : BState} {o : Obs} {s' : BState} (h : s' ∈ observe s o) : Kept s s' := by
   cases o with
   | backend e =>
@@ -150,19 +175,20 @@ theorem observe_keeps {s : BState} {o : Obs} {s' : BState} (h : s' ∈ observe s
         obtain ⟨s2, hs2, rfl⟩ := List.mem_map.1 h
         refine ((observeSent_grow hs1).kept.trans (kill_grow (kill_cases hk hs2)).kept).trans ?_
         intro cid b k p hb hm
-        exact ⟨b, by rw [updConn_stored]; exact hb, Or.inl hm⟩
+        exact ⟨b, by rw [updConn_stored]; exact hb, hm⟩
       · cases h
     · cases h
 
-/-- a successfully written packet: at most one delivery, so an entry whose id is not the session's
-    next id is kept as it is -/
+/-- a successfully written packet: at most one delivery, under an id the store does not use, so every
+    entry is kept as it is (before the repair of the allocator: only entries whose id was not the
+    session's next id) -/
 theorem sent_keeps_fresh {s : BState} {c : ConnId} {p : Packet} {s' : BState}
     (h : s' ∈ observe s (.sent c p)) {cid : ClientId} {b : BSess} {k : UInt16} {q : Packet}
-    (hb : Assoc.get s.stored cid = some b) (hm : (k, q) ∈ b.sess.outgoing.entries)
-    (hk : k ≠ b.sess.nextID.1) : Holds s' cid k q := by
+    (hb : Assoc.get s.stored cid = some b) (hm : (k, q) ∈ b.sess.outgoing.entries) :
+    Holds s' cid k q := by
   simp only [observe, Option.mem_toList] at h
   obtain ⟨b', hb', ht⟩ := observeSent_grow h cid b hb
-  exact ⟨b', hb', ht.kept hm hk⟩
+  exact ⟨b', hb', ht.kept hm⟩
 
 /-- the processor on SUBSCRIBE, UNSUBSCRIBE, PUBLISH, PUBREL, PINGREQ, DISCONNECT or a protocol
     violation (including the death of the connection that may follow): every stored session keeps
@@ -174,10 +200,10 @@ theorem recv_plain_keeps {s : BState} {c : ConnId} {p : Packet} (hp : Plain p) {
 theorem recv_plain_keeps_fresh {s : BState} {c : ConnId} {p : Packet} (hp : Plain p)
     {ss : List BState} {s' : BState} (h : recv s c p = .ok ss) (hm : s' ∈ ss)
     {cid : ClientId} {b : BSess} {k : UInt16} {q : Packet}
-    (hb : Assoc.get s.stored cid = some b) (hq : (k, q) ∈ b.sess.outgoing.entries)
-    (hk : k ≠ b.sess.nextID.1) : Holds s' cid k q := by
+    (hb : Assoc.get s.stored cid = some b) (hq : (k, q) ∈ b.sess.outgoing.entries) :
+    Holds s' cid k q := by
   obtain ⟨b', hb', ht⟩ := recv_plain_keeps hp h hm cid b hb
-  exact ⟨b', hb', ht.kept hq hk⟩
+  exact ⟨b', hb', ht.kept hq⟩
 
 /-- a dying connection (`drop`, token timeout, failed write, takeover, backend shutdown) -/
 theorem kill_keeps {s : BState} {c : ConnId} {ss : List BState} {s' : BState}
@@ -185,10 +211,10 @@ theorem kill_keeps {s : BState} {c : ConnId} {ss : List BState} {s' : BState}
 
 theorem kill_keeps_fresh {s : BState} {c : ConnId} {ss : List BState} {s' : BState}
     (h : kill s c = .ok ss) (hm : s' ∈ ss) {cid : ClientId} {b : BSess} {k : UInt16} {q : Packet}
-    (hb : Assoc.get s.stored cid = some b) (hq : (k, q) ∈ b.sess.outgoing.entries)
-    (hk : k ≠ b.sess.nextID.1) : Holds s' cid k q := by
+    (hb : Assoc.get s.stored cid = some b) (hq : (k, q) ∈ b.sess.outgoing.entries) :
+    Holds s' cid k q := by
   obtain ⟨b', hb', ht⟩ := kill_keeps h hm cid b hb
-  exact ⟨b', hb', ht.kept hq hk⟩
+  exact ⟨b', hb', ht.kept hq⟩
 
 /-- a publish by anybody: no outgoing store changes -/
 theorem backendPublish_keeps {s : BState} {c : ConnId} {m : Message} {s' : BState}
@@ -315,20 +341,20 @@ theorem qos2_no_second_fresh_offer {s : BState} {c : ConnId} {x : BConn} {b : BS
   · exact ⟨bq, _, hp, sessOf_upd_same _ hx hb (retake_sref _), rfl, rfl⟩
 
 /-- Conservation across a delivery from the stored queue: the head `hd` leaves `storedQ` and its capped
-    copy enters `outgoing` in the same step; when the allocated id is not in use (no wrap-around onto
-    an unacknowledged id) nothing else changes, so `|storedQ| + |outgoing|` is conserved — the message
-    is in exactly one of the two places before and after. -/
+    copy enters `outgoing` in the same step; the allocated id is not in use (`fresh_id_unused`), so
+    nothing else changes and `|storedQ| + |outgoing|` is conserved — the message is in exactly one of the
+    two places before and after. -/
 theorem conservation_step {s : BState} {c : ConnId} {x : BConn} {b : BSess} {hd : Message}
     {rest : List Message} {id : UInt16} {s' : BState}
     (hx : s.conn? c = some x) (hb : s.sessOf c = some b) (hq : b.storedQ = hd :: rest)
-    (h : acceptDelivery s c x b (applyQOS b hd) id = some s') (hq0 : (applyQOS b hd).qos ≠ 0)
-    (hfresh : id ∉ b.sess.outgoing.entries.map (·.1)) :
+    (h : acceptDelivery s c x b (applyQOS b hd) id = some s') (hq0 : (applyQOS b hd).qos ≠ 0) :
     ∃ b', s'.sessOf c = some b' ∧
       b'.sess.outgoing.entries = b.sess.outgoing.entries ++ [(id, .publish (applyQOS b hd) false id)] ∧
       (b'.storedQ = rest ∨ b'.storedQ = b.storedQ) ∧
       (b'.storedQ = rest →
         b'.storedQ.length + b'.sess.outgoing.entries.length = b.storedQ.length + b.sess.outgoing.entries.length) := by
   obtain ⟨_, b1, hb1, _, he⟩ := saved_before_sent hx hb h hq0
+  have hfresh := (fresh_id_unused hx hb h hq0).2.2.1
   obtain ⟨bq, b2, hp, hb2, e1, _⟩ := qos2_no_second_fresh_offer hx hb h
   rw [hb1] at hb2
   cases hb2
@@ -475,20 +501,27 @@ example : ∃ x b s', exLive.conn? 0 = some x ∧ exLive.sessOf 0 = some b ∧
 example : (observe exLive (.sendFail 0 (.publish ⟨[116], [2], 1, false⟩ false 3))).length = 1 := by
   decide
 
-/-- The caveat of the `*_keeps` theorems is real.  The id counter has wrapped around to 1 while the
-    packet with id 1 (message "A") is still unacknowledged; the next delivery (message "B") is given id 1
-    and `SavePacket` overwrites the record of "A": it will never be retransmitted. -/
-def exWrap : BState :=
-  { conns := [(0, { phase := .connected, sref := .stored [97], running := true, deqChan := 8, deqHand := true })],
-    stored := [([97], { storedQ := [⟨[116], [66], 1, false⟩], active := some 0,
-                        sess := { outgoing := ⟨[(1, .publish ⟨[116], [65], 1, false⟩ false 1)]⟩,
-                                  counter := ⟨1⟩ } })] }
-
-theorem id_reuse_overwrites :
-    ∃ x b s' b', exWrap.conn? 0 = some x ∧ exWrap.sessOf 0 = some b ∧
-      acceptDelivery exWrap 0 x b ⟨[116], [66], 1, false⟩ 1 = some s' ∧ s'.sessOf 0 = some b' ∧
+/-- The defect the allocator had (`BrokerB6.exWrap`: the id counter has wrapped around to 1 while the
+    packet with id 1, message "A", is still unacknowledged; message "B" is queued): the old allocator
+    delivers "B" under id 1 and `SavePacket` overwrites the record of "A" — never retransmitted.
+    Reproduced on the real broker (gosyn/brokertrace `c08Wrap`, monitors id-reused-while-unacked and
+    resend-missing). -/
+theorem old_allocator_overwrites :
+    ∃ x b s' b', BrokerB6.exWrap.conn? 0 = some x ∧ BrokerB6.exWrap.sessOf 0 = some b ∧
+      BrokerB6.acceptDeliveryOld BrokerB6.exWrap 0 x b ⟨[116], [66], 1, false⟩ 1 = some s' ∧
+      s'.sessOf 0 = some b' ∧
       b'.sess.outgoing.entries = [(1, .publish ⟨[116], [66], 1, false⟩ false 1)] :=
-  ⟨_, _, _, _, rfl, rfl, rfl, rfl, rfl⟩
+  BrokerB6.old_id_reuse_overwrites
+
+/-- … and the repaired allocator on the same state: a delivery under id 1 is not an enabled output, "B"
+    goes out under id 2 and both records are there -/
+theorem id_reuse_repaired :
+    ∃ x b s' b', BrokerB6.exWrap.conn? 0 = some x ∧ BrokerB6.exWrap.sessOf 0 = some b ∧
+      acceptDelivery BrokerB6.exWrap 0 x b ⟨[116], [66], 1, false⟩ 1 = none ∧
+      acceptDelivery BrokerB6.exWrap 0 x b ⟨[116], [66], 1, false⟩ 2 = some s' ∧ s'.sessOf 0 = some b' ∧
+      b'.sess.outgoing.entries = [(1, .publish ⟨[116], [65], 1, false⟩ false 1),
+                                  (2, .publish ⟨[116], [66], 1, false⟩ false 2)] :=
+  ⟨_, _, _, _, rfl, rfl, by decide, rfl, rfl, rfl⟩
 
 /-- `offline_queued` applies: a QoS 1 publish to "t" reaches the offline session -/
 example : ∃ s', backendPublish exState 7 ⟨[116], [5], 1, false⟩ = .ok s' ∧
